@@ -1,5 +1,6 @@
 """Lusbsub (USBControl / USBInterrupt / USBBulk content-only sub-layers of layers/usb.go: C19, C05, C01; C06/C07 n/a) configuration for ./check"""
 CONF = {
+    'coq_sample': 10,   # cases re-evaluated inside Coq by vm_compute against the extracted runner's output
     'interesting': ['truncated-prefix-of-valid', 'length-extreme', 'registered-decoder', 'kind-control', 'kind-interrupt', 'kind-bulk', 'malformed', 'seed'],
     'rule': 'For each of USBControl, USBInterrupt, USBBulk: byte strings of 0,1,2,7,8,9,64,300,1500,65535 octets and every truncation of them up to 40, decoded into fresh and reused objects and through the registered decoder function on a recording PacketBuilder; what follows the usbmon header in the packet literals of layers/*_test.go; a malformed stream.',
     'shrink_keep_first': 1,
